@@ -15,7 +15,7 @@ class Determinism(PipelineBase):
         PipelineBase.__init__(self,**kw); self.nlinks=nlinks; self.two_steps=two_steps; self.all_valid=all_valid; self.nsig=nsig
         if all_valid: self.name='C13.determinism_%dlinks_all_valid'%nlinks
         if nsig>1: self.name='C13.determinism_%dlinks_%dsignatures_per_link'%(nlinks,nsig)
-        self.bounds={'steps':2 if two_steps else 1,'links_per_step':nlinks,'threshold':'any u32','materials/products':'one path each, free digest byte per link (links may differ)',
+        self.bounds={'steps':2 if two_steps else 1,'links_per_step':nlinks,'threshold':'any u32','materials/products':'one path each, free digest byte per link (links may differ); in the all-valid variant every link but the first may report one more product of its own',
                      'signature_validity':'free per link','signatures_per_link':'%d, all labelled with the link\'s key id'%nsig,'hash_map_iteration':'run 1 insertion order, run 2 every permutation (all maps)' if not all_valid else 'run 1 insertion order, run 2 every rotation and the reversal of every map (each entry is first and last in some order)','directory_enumeration':'glob returns sorted paths (as the glob crate documents); not varied'}
         self.witnesses=['both_ok','both_err']
     def setup(self,eng,tier):
@@ -40,6 +40,11 @@ class Determinism(PipelineBase):
             thr=Int(32,False,z3.BitVec('thr%d'%si,32))
             for i in range(n):
                 mats={'a':[1] if self.all_valid else [z3.BitVec('dm_%d_%d'%(si,i),8)]}; prods={'p':[z3.BitVec('dp_%d_%d'%(si,i),8)]}
+                # links may also differ in WHICH artifacts they report (one being a subset of another, or overlapping)
+                if self.all_valid and i>0 and (run.pick(2,'extra_%d_%d'%(si,i)) if first else self._extra[(si,i)]):
+                    prods['q%d'%i]=[7]
+                    if first: self._extra[(si,i)]=True
+                elif self.all_valid and i>0 and first: self._extra[(si,i)]=False
                 mb=z3.BitVec('mb_%d_%d'%(si,i),8)
                 if first: run.add(z3.ULE(mb,n))
                 sd=SigD(i,i) if self.all_valid else SigD(i,mb,z3.Bool('in_%d_%d'%(si,i)),z3.Bool('ov_%d_%d'%(si,i)))
@@ -54,6 +59,7 @@ class Determinism(PipelineBase):
         lb=BlockD('layout',lay,[SigD(OWN,OWN)]); caller=[(OWN,OWN)]
         return lb,caller,dirs
     def mk_args(self,run):
+        self._extra={}
         lb,caller,dirs=self.build(run,True)
         a1=self.install(run,lb,caller,dirs)
         g1=dict(run.ghost['dirs'])
